@@ -129,6 +129,9 @@ def handle (st : DState) (req : Sexp) : Except String (DState × Sexp) :=
       .ok (st, sexpOfTy (shrink (← natOf k) (← ts.mapM tyOf)))
   | .list (.atom "infer" :: k :: vs) => do
       .ok (st, sexpOfTy (infer (← natOf k) (← vs.mapM valOf)))
+  | .list [.atom "inferRewrite", k, .list vs] => do
+      -- C01: one position end to end — per-value types, merge, default rewriter chain
+      .ok (st, sexpOfTy (rewriteChain st.H defaultChain (infer (← natOf k) (← vs.mapM valOf))))
   | .list [.atom "conforms", t, v] => do
       .ok (st, sexpOfBool (conforms st.sub true (← tyOf t) (← valOf v)))
   | .list [.atom "conformsT", t, v] => do
